@@ -271,10 +271,11 @@ Sched(s, t) == CASE s.k = "gate" -> << <<s, t>> >>
                  [] OTHER -> <<>>
 BagOf(sq) == [x \in { sq[j] : j \in DOMAIN sq } |-> Cardinality({ j \in DOMAIN sq : sq[j] = x })]
 Schedule(prog) == BagOf(SchedSeq(prog.body, 0))
-\* a loop somewhere inside a parallel block
+\* a loop somewhere inside a parallel block.  A loop is an opaque item of the normal form (C19: "a flat sequence of gates,
+\* parallel groups and loops"): the body of a loop that is NOT inside a parallel block is not looked into
 RECURSIVE LoopInPar(_, _)
 LoopInPar(s, inpar) ==
-  CASE s.k = "loop" -> inpar \/ LoopInPar(s.body, inpar)
+  CASE s.k = "loop" -> inpar
     [] s.k = "blk" -> \E j \in DOMAIN s.body : LoopInPar(s.body[j], inpar \/ s.par)
     [] OTHER -> FALSE
 \* normal form: gates, parallel groups of gates, loops; a subcircuit block stays a block (its annotation must
